@@ -1,4 +1,4 @@
-(* Properties/C07.v — float_roundtrip: decimal to float conversion is correctly rounded (model level; PARTIAL, see below).
+(* Properties/C07.v — float_roundtrip: decimal to float conversion is correctly rounded (model level).
    Only pinned statements: each is closed by `exact` of a lemma proved in Proofs/.
 
    What is proved:
@@ -10,9 +10,14 @@
      C07_fast_path       the fast path of the algorithm model (Model/Lex.fast_path) returns the oracle's bits
      C07_tables_*        the cached powers / constants extracted from src/lexical (regenerated on every run) are what they claim to be
      C07_ef_mul, C07_ef_normalize, C07_small_atof   arithmetic of the extended-float and big-integer comparison steps
-   What is CHECKED, not proved (tools/checks/lex.py): that the moderate (extended float) path and bhcomp of the real code return the
-   correctly rounded value (implementation vs exact oracle, implementation vs Model/Lex.v step by step, Model/Lex.v vs the oracle);
-   f32 targets; the float printer (ryu, an external crate): valid JSON number syntax, contains '.' or 'e', re-parses to the same float,
+     C07_concise / C07_concise32 / C07_truncated / C07_truncated32 / C07_alg_spec
+                         the ALGORITHM model of src/lexical (Model/Lex.v: fast path, extended-float moderate path with its error booking,
+                         big-integer slow path bhcomp) returns, bit for bit, the oracle's round-to-nearest-even result, for both float kinds:
+                         every u64 mantissa with every exponent, and every digit string of any length (proved on the code as repaired by the
+                         fixes of findings F21 and F22, which these proofs found)
+   What is CHECKED, not proved (tools/checks/lex.py): that the real src/lexical behaves as Model/Lex.v (implementation vs Model/Lex.v step by
+   step, implementation vs exact oracle); Bigint arithmetic (abstracted to Z in the model; checked limb by limb);
+   the float printer (ryu, an external crate): valid JSON number syntax, contains '.' or 'e', re-parses to the same float,
    on every float met and on all 2^32 f32 bit patterns. *)
 From Coq Require Import ZArith NArith Reals List Bool.
 From Flocq Require Import Core BinarySingleNaN.
@@ -173,6 +178,39 @@ Theorem C07_bhcomp_exact : forall (b : N) (integer fraction : bytes) (exponent :
 Proof. exact LexBh.bhcomp_correct. Qed.
 Print Assumptions C07_bhcomp_exact.
 
+
+(* ---- the whole algorithm (Proofs/LexRtn.v, LexErr.v, LexMod.v, LexFull.v, LexOracle32.v, LexFull32.v) ---- *)
+From SJ Require Proofs.LexFull Proofs.LexFull32.
+Theorem C07_concise : forall (mantissa : N) (mant_exp : Z), (mantissa < two64N)%N ->
+  parse_concise_float F64 mantissa mant_exp = bits_of_b64 (rne_decimal (Z.of_N mantissa) mant_exp).
+Proof. exact LexFull.lex_concise_correct. Qed.
+Theorem C07_concise32 : forall (mantissa : N) (mant_exp : Z), (mantissa < two64N)%N ->
+  parse_concise_float F32 mantissa mant_exp = bits_of_b32 (rne_decimal32 (Z.of_N mantissa) mant_exp).
+Proof. exact LexFull32.lex_concise_correct32. Qed.
+(* the algorithm computes exactly the specification the parser model uses (None = NumberOutOfRange on the same inputs) *)
+Theorem C07_alg_spec : forall (sig : N) (e : Z), (sig < two64N)%N -> f64_fr_alg sig e = option_map bits_of_b64 (f64_fr sig e).
+Proof. exact LexFull.f64_fr_alg_spec. Qed.
+(* literals with more digits than fit u64: digits only, integer part without a leading zero (guaranteed by de.rs), sizes below 10^9 (no i32
+   saturation in the exponent arithmetic), some non-zero digit *)
+Theorem C07_truncated : forall (integer fraction : bytes) (exponent : Z),
+  forallb is_digit integer = true -> forallb is_digit fraction = true -> (integer = [] \/ hd 0%N integer <> 48%N) ->
+  -1000000000 <= exponent <= 1000000000 -> Z.of_nat (length integer) + Z.of_nat (length fraction) <= 1000000000 ->
+  0 < digits_val (integer ++ strip_trailing_zeros fraction) 0 ->
+  parse_truncated_float F64 integer fraction exponent = bits_of_b64 (lexical_truncated integer fraction exponent).
+Proof. exact LexFull.lex_truncated_correct. Qed.
+Theorem C07_truncated32 : forall (integer fraction : bytes) (exponent : Z),
+  forallb is_digit integer = true -> forallb is_digit fraction = true -> (integer = [] \/ hd 0%N integer <> 48%N) ->
+  -1000000000 <= exponent <= 1000000000 -> Z.of_nat (length integer) + Z.of_nat (length fraction) <= 1000000000 ->
+  let fr := strip_trailing_zeros fraction in
+  0 < digits_val (integer ++ fr) 0 ->
+  parse_truncated_float F32 integer fraction exponent =
+  bits_of_b32 (rne_decimal32 (digits_val (integer ++ fr) 0) (exponent - Z.of_nat (length fr))).
+Proof. exact LexFull32.lex_truncated_correct32. Qed.
+Print Assumptions C07_concise.
+Print Assumptions C07_concise32.
+Print Assumptions C07_alg_spec.
+Print Assumptions C07_truncated.
+Print Assumptions C07_truncated32.
 
 (* ---- non-vacuity ---------------------------------------------------------------------------------------------------- *)
 Open Scope N_scope.
